@@ -15,7 +15,11 @@ import z3
 from harness.realmodel import *  # noqa
 from leaspy.algo.personalize.constant_prediction_algo import ConstantPredictionAlgorithm, PredictionType
 from leaspy.models.constant import ConstantModel
-from symtorch.numpy_payload import SymNd, sym_nd
+from symtorch.numpy_payload import NumpyProxy, SymNd, sym_nd
+import leaspy.algo.personalize.constant_prediction_algo as _cpa
+
+if isinstance(getattr(_cpa, "np", None), type(np)):  # conversions of an already-float symbolic array are the identity
+    _cpa.np = NumpyProxy(np)
 from vcheck.common import Recorder, guarded, model_value
 
 PROP = "C20"
@@ -28,7 +32,7 @@ META = dict(
     "conditional means given the variance components - and the residuals are y - X beta - Z b on the observed visits, in order.",
     bounds="visits <= 3, features <= 2, requested ages <= 3; LME: visits <= 3 (4 thorough), every missing pattern with >= 1 observed visit, with and without random slope",
     outside="agreement of the fitted variance components / random effects with statsmodels MixedLM (library code, not symbolically executable); LME trajectories",
-    assumptions=["np.nanmax / np.nanmean semantics are modelled in the harness (trusted specification of numpy)", "ages pairwise distinct",
+    assumptions=["np.nanmax / np.nanmean semantics are modelled in the harness (trusted specification of numpy)", "ages pairwise distinct", "np.asarray / np.array of a float64 symbolic array with dtype float is the identity (module-level `np` proxy)",
                  "LME: reals; a missing observation is an unconstrained real flagged missing (np.isnan stub answers from the flag; NaN poisoning through arithmetic is not modelled); "
                  "np.linalg.inv(A) is a fresh matrix under A G = G A = I with det A > 0 proved separately; variance components symmetric positive definite"],
 )
@@ -39,8 +43,10 @@ class _Host:
     _get_individual_last_values = ConstantPredictionAlgorithm._get_individual_last_values
 
 
-def _replay(ptype, n, d):
+def _replay(ptype, n, d, first=None):
+    """replay script: the solver's own (ages, values) first when given, then a fixed enumeration"""
     return f"""
+FIRST = {first!r}
 import numpy as np, itertools
 from leaspy.algo.personalize.constant_prediction_algo import ConstantPredictionAlgorithm, PredictionType
 class H:
@@ -50,8 +56,17 @@ h = H(); h.prediction_type = PredictionType({ptype!r})
 bad = []
 nan = float('nan')
 pal = [nan, 0.25, -1.5, 3.0]
-for ages in itertools.permutations([70.5, 61.0, 82.25][:{n}]):
-    for flat in itertools.product(pal, repeat={n * d}):
+def cases():
+    if FIRST is not None:
+        yield tuple(float(a) for a in FIRST[0]), [float(x) for x in FIRST[1]]
+    for ages in itertools.permutations([70.5, 61.0, 82.25][:{n}]):
+        for flat in itertools.product(pal, repeat={n * d}):
+            yield ages, flat
+    for ages in itertools.permutations([-3.5, 0.0, 2.25][:{n}]):
+        for flat in itertools.product(pal, repeat={n * d}):
+            yield ages, flat
+for ages, flat in cases():
+    if True:
         v = np.array(flat, dtype=float).reshape({n}, {d}); t = np.array(ages)
         import warnings
         with warnings.catch_warnings():
@@ -68,7 +83,6 @@ for ages in itertools.permutations([70.5, 61.0, 82.25][:{n}]):
             else:
                 nn = col[~np.isnan(col)]; exp[k] = nn.mean() if len(nn) else nan
         if not np.allclose(got, exp, equal_nan=True): bad.append((ages, v.tolist(), got.tolist(), exp.tolist())); break
-    if bad: break
 print(bad[:1]); sys.exit(1 if bad else 0)
 """
 
@@ -99,6 +113,16 @@ def prediction_task(ptype, n, d):
             if isinstance(res, Exception):
                 raise res
             ages, vals = hold["ages"], hold["vals"]
+
+            def from_model(m_, ages=ages, vals=vals):
+                def num(t):
+                    x = model_value(m_, t)
+                    return repr(float(x))  # 'nan' / 'inf' survive float(...) in the script
+                try:
+                    return _replay(ptype, n, d, first=([num(a) for a in ages.a], [num(vals.a[j, k]) for j in range(n) for k in range(d)]))
+                except Exception:
+                    return script
+
             rec.obligations += 1
             if list(res.keys()) == [f"f{k}" for k in range(d)]:
                 rec.discharged += 1
@@ -113,24 +137,24 @@ def prediction_task(ptype, n, d):
                 if ptype == "last":
                     for j in range(n):
                         latest = z3.And(*[z3.fpGT(A[j], A[i]) for i in range(n) if i != j]) if n > 1 else z3.BoolVal(True)
-                        rec.prove(f"last[f{k}]@visit{j}", z3.Implies(latest, T.same_value(got, col[j])), replay=lambda m_: script, key="C20:last", what="`last` is not the value at the greatest age")
+                        rec.prove(f"last[f{k}]@visit{j}", z3.Implies(latest, T.same_value(got, col[j])), replay=from_model, key="C20:last", what="`last` is not the value at the greatest age")
                 elif ptype == "last-known":
                     for j in range(n):
                         cond = z3.And(z3.Not(z3.fpIsNaN(col[j])), *[z3.Or(z3.fpIsNaN(col[i]), z3.fpLT(A[i], A[j])) for i in range(n) if i != j])
-                        rec.prove(f"last-known[f{k}]@visit{j}", z3.Implies(cond, T.same_value(got, col[j])), replay=lambda m_: script, key="C20:last-known", what="`last-known` is not the value at the greatest age with a non-missing value")
-                    rec.prove(f"last-known[f{k}]:all-missing", z3.Implies(z3.And(*[z3.fpIsNaN(x) for x in col]), z3.fpIsNaN(got)), replay=lambda m_: script, key="C20:last-known", what="feature entirely missing does not give NaN")
+                        rec.prove(f"last-known[f{k}]@visit{j}", z3.Implies(cond, T.same_value(got, col[j])), replay=from_model, key="C20:last-known", what="`last-known` is not the value at the greatest age with a non-missing value")
+                    rec.prove(f"last-known[f{k}]:all-missing", z3.Implies(z3.And(*[z3.fpIsNaN(x) for x in col]), z3.fpIsNaN(got)), replay=from_model, key="C20:last-known", what="feature entirely missing does not give NaN")
                 elif ptype == "max":
                     some = z3.Or(*[z3.Not(z3.fpIsNaN(x)) for x in col])
-                    rec.prove(f"max[f{k}]:upper", z3.Implies(some, z3.And(z3.Not(z3.fpIsNaN(got)), *[z3.Or(z3.fpIsNaN(x), z3.fpGEQ(got, x)) for x in col])), replay=lambda m_: script, key="C20:max", what="`max` is not an upper bound of the observed values")
-                    rec.prove(f"max[f{k}]:attained", z3.Implies(some, z3.Or(*[z3.And(z3.Not(z3.fpIsNaN(x)), z3.fpEQ(got, x)) for x in col])), replay=lambda m_: script, key="C20:max", what="`max` is not one of the observed values")
-                    rec.prove(f"max[f{k}]:all-missing", z3.Implies(z3.Not(some), z3.fpIsNaN(got)), replay=lambda m_: script, key="C20:max", what="feature entirely missing does not give NaN")
+                    rec.prove(f"max[f{k}]:upper", z3.Implies(some, z3.And(z3.Not(z3.fpIsNaN(got)), *[z3.Or(z3.fpIsNaN(x), z3.fpGEQ(got, x)) for x in col])), replay=from_model, key="C20:max", what="`max` is not an upper bound of the observed values")
+                    rec.prove(f"max[f{k}]:attained", z3.Implies(some, z3.Or(*[z3.And(z3.Not(z3.fpIsNaN(x)), z3.fpEQ(got, x)) for x in col])), replay=from_model, key="C20:max", what="`max` is not one of the observed values")
+                    rec.prove(f"max[f{k}]:all-missing", z3.Implies(z3.Not(some), z3.fpIsNaN(got)), replay=from_model, key="C20:max", what="feature entirely missing does not give NaN")
                 else:
                     s = z3.FPVal(0.0, T.F64)
                     cnt = z3.FPVal(0.0, T.F64)
                     for x in col:
                         s = z3.If(z3.fpIsNaN(x), s, z3.fpAdd(T.RNE, s, x))
                         cnt = z3.If(z3.fpIsNaN(x), cnt, z3.fpAdd(T.RNE, cnt, z3.FPVal(1.0, T.F64)))
-                    rec.prove(f"mean[f{k}]", T.same_value(got, z3.fpDiv(T.RNE, s, cnt)), replay=lambda m_: script, key="C20:mean", what="`mean` is not the mean of the observed values (visit order)")
+                    rec.prove(f"mean[f{k}]", T.same_value(got, z3.fpDiv(T.RNE, s, cnt)), replay=from_model, key="C20:mean", what="`mean` is not the mean of the observed values (visit order)")
             if rec.paths == 1:
                 rec.sample({"prediction_type": ptype, "visits": n, "features": d, "ages": "symbolic distinct, any order", "values": "float64 incl. NaN"})
         return rec.result()
